@@ -911,7 +911,12 @@ static void static_variants(Ops const& P, Subject const& s, bool safe, bool have
             vf::violation("text_differs_from_to_chars/" + reg, id, id + ": " + show(text) + " vs to_chars " + show(ref));
             continue;
         }
-        vf::outcome(std::string("ok_same_text_") + v.nm);
+        // "to_chars with an adequate buffer" is read as a buffer of the fixed capacity (adequate for success). Where a longer
+        // buffer would have printed more digits (the capacity is smaller than the complete expansion) the fixed-capacity text is
+        // a shorter truncation of the same value: counted under its own outcome, judged by the truncation rules of to_chars
+        if (have_any && ref_any != ref) vf::outcome(std::string("ok_same_text_as_capacity_sized_call_but_longer_buffer_prints_more_digits_") + v.nm);
+        else
+            vf::outcome(std::string("ok_same_text_") + v.nm);
 #endif
     }
 }
